@@ -933,6 +933,8 @@ pub fn run(spec: &RunSpec) -> ! {
     unsafe { WORLD = Box::into_raw(world) };
     let sh = sighook_shim::shm::get();
     sighook_shim::shm::put_str(&mut sh.crash_prop, "C01");
+    // the registry calls abort() itself only if a reader count overflows: never acceptable
+    sighook_shim::shm::put_str(&mut sh.abort_prop, spec.prop.id);
     if spec.prop.id == "C03" && spec.run < spec.prop.sweep_runs {
         sweep_run(spec);
     }
@@ -941,12 +943,17 @@ pub fn run(spec: &RunSpec) -> ! {
     install_prev();
     let prop = spec.prop.id;
     let drain_at = if prop == "C18" && sim::work(2) == 0 { Some(5 + sim::work(120) as u64) } else { None };
+    let stall_reader = prop == "C18" && sim::work(2) == 0;
     sim::start(cfg);
     sim::set_handler_step_limit(600);
     sim::set_injector(injector());
     if let Some(at) = drain_at {
         w().drain = DrainState::Armed(at);
         sim::set_step_hook(drain_hook());
+    } else if stall_reader {
+        // fault: a delivery that began after a writer's generation switch stalls inside its read
+        // section; the writer must not depend on it
+        sim::set_stall_later_reader(1);
     }
     let mut tids = Vec::new();
     for ops in muts.into_iter() {
